@@ -27,7 +27,7 @@ BUDGET = {
     "quick": {"cases": 6400, "seconds": 90, "shards": 8},
     "thorough": {"cases": 120000, "seconds": 900, "shards": 16},
 }
-REQUIRED_OBS = ["extreme_query_rows", "rows_compared", "kind:supervised", "kind:semi", "kind:knn", "kind:unsup", "train_copy_at_own_index", "batch_longer_than_train",
+REQUIRED_OBS = ["propagate_twin_compared", "extreme_query_rows", "rows_compared", "kind:supervised", "kind:semi", "kind:knn", "kind:unsup", "train_copy_at_own_index", "batch_longer_than_train",
                 "pre_computed_cases", "after_earlier_predicts"]
 MIN_NONTRIVIAL = 100
 KINDS = ["supervised", "semi", "knn", "unsup"]
@@ -47,6 +47,15 @@ def generate(rng, tier, idx):
     YV[0] = int(Y.max())
     max_k = int(rng.integers(1, min(5, n - 1) + 1))
     pool = gen.to_domain(gen.make_queries(rng, A, int(rng.integers(3, 9))), dom)
+    if rng.random() < 0.4 and len(pool) >= 3:
+        # near-duplicate queries on opposite sides of a class boundary: the midpoint of two differently labelled training rows
+        # moved by +-1e-9 of their difference (two DIFFERENT samples that agree to ~8 significant digits)
+        for _ in range(6):
+            a, b = int(rng.integers(0, n)), int(rng.integers(0, n))
+            if Y[a] != Y[b]:
+                mid, dif = (X[a] + X[b]) / 2.0, (X[a] - X[b])
+                pool[0], pool[1] = mid + 1e-9 * dif, mid - 1e-9 * dif
+                break
     if rng.random() < 0.35:
         # rows so far away that every distance overflows to inf: the result must still be a function of the row alone
         pool[int(rng.integers(0, len(pool)))] = 1e200
@@ -136,7 +145,13 @@ def check(case):
         else:
             reuse[len(batch)] = Xb
         if pre:
-            c = safe_call(m.predict, Xb, np.array([rows[i][1] for i in batch], dtype=int))
+            Ib = np.array([rows[i][1] for i in batch], dtype=int)
+            if ("I", len(batch)) in reuse:       # the index buffer too is one object refilled in place
+                reuse[("I", len(batch))][:] = Ib
+                Ib = reuse[("I", len(batch))]
+            else:
+                reuse[("I", len(batch))] = Ib
+            c = safe_call(m.predict, Xb, Ib)
         else:
             c = safe_call(m.predict, Xb)
         calls[0] += 1
@@ -177,6 +192,10 @@ def check(case):
     res.see("batch_longer_than_train")
     schedule.append((list(ids), "full batch again after earlier predicts"))
     res.see("after_earlier_predicts")
+    twin = None
+    if kind == "unsup":
+        import copy
+        twin = copy.deepcopy(m)          # the same fitted model, never asked to predict before its labels are propagated
     for batch, ctx in schedule:
         c = run(batch, ctx)
         if res.violations:
@@ -194,6 +213,21 @@ def check(case):
             where = "training copy" if i in train_ids else "query"
             res.violate("independence", f"C09/position-dependent/{kind}",
                         f"{kind}/{name} ({'pre-computed' if pre else 'on-the-fly'}): row {i} ({where}) predicted {items[0][0]} in {items[0][1]} but {items[1][0]} in {items[1][1]}")
+            return res
+    if twin is not None:
+        # label propagation changes the model; afterwards a prediction must not depend on predictions made BEFORE it
+        m.propagate_labels()
+        twin.propagate_labels()
+        full = list(ids)
+        Xb = np.array([rows[i][0] for i in full], dtype=float).reshape(len(full), d)
+        Ib = np.array([rows[i][1] for i in full], dtype=int) if pre else None
+        a = safe_call(m.predict, Xb.copy(), Ib.copy()) if pre else safe_call(m.predict, Xb.copy())
+        b = safe_call(twin.predict, Xb.copy(), Ib.copy()) if pre else safe_call(twin.predict, Xb.copy())
+        res.see("propagate_twin_compared")
+        if a.ok and b.ok and ([list(map(int, v)) for v in a.value] != [list(map(int, v)) for v in b.value]):
+            res.violate("independence", "C09/depends-on-predictions-before-propagate/unsup",
+                        f"unsup/{name}: after propagate_labels the model that had predicted before returns {[list(map(int, v)) for v in a.value]}, "
+                        f"an identical model that had not returns {[list(map(int, v)) for v in b.value]}")
             return res
     own = any(i in train_ids and train_ids[i] in positions[i] for i in ids)
     if own:
